@@ -43,10 +43,23 @@ def run(ck, pid, opts, common):
     maps = {label: load(hd, label) for label, _ in labels}
     keys = set.intersection(*[set(m) for m in maps.values()])
     differing = [k for k in sorted(keys) if len({m[k] for m in maps.values()}) > 1]
+    # a case that completed in some processes only (e.g. a debug-only overflow panic) is a difference too
+    union = set.union(*[set(m) for m in maps.values()])
+    partial = sorted(k for k in union if k not in keys)
     c = merged["coverage"]
     c["processes_compared"] = len(labels)
     c["cases_compared_across_processes"] = len(keys)
     c["cases_differing_across_processes"] = len(differing)
+    c["cases_completed_in_some_processes_only"] = len(partial)
+    if partial:
+        p = os.path.join(ck.VERIF, "replays", "C03-%s-s%s-partial.json" % (opts["tier"], opts["seed"]))
+        os.makedirs(os.path.dirname(p), exist_ok=True)
+        json.dump({"property": pid, "tier": opts["tier"], "seed": opts["seed"], "signature": "nondeterministic/case-completes-in-some-processes-or-profiles-only",
+                   "witness": {"cases": [{"case": k, "completed_in": [l for l in maps if k in maps[l]]} for k in partial[:20]], "count": len(partial)}}, open(p, "w"), indent=1)
+        print("VIOLATION property=%s replay=%s" % (pid, p))
+        print("  signature: nondeterministic/case-completes-in-some-processes-or-profiles-only (%d cases)" % len(partial))
+        merged["violations"] = merged.get("violations", 0) + 1
+        rc = 1
     if differing:
         p = os.path.join(ck.VERIF, "replays", "C03-%s-s%s-across-processes.json" % (opts["tier"], opts["seed"]))
         os.makedirs(os.path.dirname(p), exist_ok=True)
